@@ -14,7 +14,9 @@ Verdict(r) ==
     THEN [id |-> r.id, ok |-> Contract(r.inp, r.out), same |-> (r.out = Merge(r.inp)), what |-> "merge"]
     ELSE [id |-> r.id,
           ok |-> /\ (r.hasExtents => Good(r.nz, r.extents) /\ Good(r.nz, r.merged))
-                 /\ Good(r.nz, r.segments),
+                 /\ Good(r.nz, r.segments)
+                 \* paging (XcpFiemap.Complete): what map_extents assembled page by page is the kernel's list obtained in ONE request
+                 /\ (r.hasExtents /\ r.kextKnown => r.extents = r.kext),
           same |-> TRUE, what |-> "file"]
 VARIABLE l
 TInit == l = 1 /\ list = <<>>
